@@ -1,4 +1,5 @@
 import Chess.Lemmas.AlphaBeta
+import Chess.Lemmas.AlphaBetaClamp
 import Chess.Model.Uci
 
 /-!
@@ -66,6 +67,34 @@ theorem generation_order_irrelevant {o o' : Ops G M} (h : Reordered o o') (hrep 
       rootSearch o' (fun _ => true) g depth st' = some ((bm', refRoot o depth g, false), s') :=
   root_reordered h hrep g depth st st' hlen ht ht' hmiss hmiss' hT
 
+/-- **C09.5** The general statement, which covers chess trees as they are: below depth 2 the
+engine uses unchecked move lists, so king captures occur and leave a side to move without a king
+and without moves INSIDE quiescence, where the stand-pat cut-off precedes the no-move rule. If every
+such dead quiescence node is hopeless for the side to move (`eval ≤ -K` and its no-move value
+`≤ -K`: `RootInRangeK`), the optimised search and the exhaustive reference agree after clamping
+both into `[-K, K]` — i.e. exactly, whenever the value is not in the king-capture range. -/
+theorem pruned_equals_exhaustive_clamped (K : Int) (hK : 0 ≤ K) (o : Ops G M) (g : G) (depth : Nat) (st : St M)
+    (hlen : (o.checked g).length ≠ 1) (ht : st.ttOff = true)
+    (hmiss : ∀ e, st.tt[o.hash g]? = some e → ¬(e.depth ≥ depth ∧ e.flag = Flag.exact))
+    (hT : RootInRangeK K o depth g) :
+    ∃ bm sc st', rootSearch o (fun _ => true) g depth st = some ((bm, sc, false), st') ∧
+      st'.ttOff = true ∧ clampK K sc = clampK K (refRoot o depth g) :=
+  root_exact_clamped K hK o g depth st hlen ht hmiss hT
+
+theorem pruned_equals_exhaustive_inside (K : Int) (hK : 0 ≤ K) (o : Ops G M) (g : G) (depth : Nat) (st : St M)
+    (hlen : (o.checked g).length ≠ 1) (ht : st.ttOff = true)
+    (hmiss : ∀ e, st.tt[o.hash g]? = some e → ¬(e.depth ≥ depth ∧ e.flag = Flag.exact))
+    (hT : RootInRangeK K o depth g) (h1 : -K < refRoot o depth g) (h2 : refRoot o depth g < K) :
+    ∃ bm st', rootSearch o (fun _ => true) g depth st = some ((bm, refRoot o depth g, false), st') ∧
+      st'.ttOff = true :=
+  root_exact_of_inside K hK o g depth st hlen ht hmiss hT h1 h2
+
+/-- the hypotheses are decidable on a concrete tree: the Boolean checker the correspondence check
+runs on every chess tree it compares -/
+theorem hypotheses_checkable (K : Int) (o : Ops G M) (depth : Nat) (g : G)
+    (h : rootInRangeKB K o depth g = true) : RootInRangeK K o depth g :=
+  rootInRangeKB_sound K o depth g h
+
 /-- the chess engine is an instance: the theorem applies to `Uci.chessOps` as it stands -/
 example (g : Game) (depth : Nat) (st : St Move)
     (hlen : (Uci.chessOps.checked g).length ≠ 1) (ht : st.ttOff = true)
@@ -85,3 +114,6 @@ end Chess.Props.C09
 #print axioms Chess.Props.C09.node_window_sound
 #print axioms Chess.Props.C09.ordering_state_irrelevant
 #print axioms Chess.Props.C09.generation_order_irrelevant
+#print axioms Chess.Props.C09.pruned_equals_exhaustive_clamped
+#print axioms Chess.Props.C09.pruned_equals_exhaustive_inside
+#print axioms Chess.Props.C09.hypotheses_checkable
